@@ -186,3 +186,32 @@ def flag_variant_ties(ctx, run, k, s, tag, nvar=2):
         if tied is not None:
             ctx.case((run.iso, sorted((a, str(b)) for a, b in run.opts.items()), k, label), nontrivial=True,
                      sample={"country": run.iso, "round": k + 1, "kind": s.kind, "flag_variant": label, "rows": len(cap["rows"]), "rows_differing": len(tied[2])})
+
+
+RETAIL_KEYS = ["SEAWEED_WASTE_RETAIL", "CROP_WASTE_RETAIL", "STORED_FOOD_WASTE_RETAIL", "CELL_SUGAR_RETAIL_WASTE", "SCP_RETAIL_WASTE", "MEAT_WASTE_RETAIL"]
+
+
+def handoff_mismatches(opt):
+    """the optimiser's constants against the configured inputs they are copies of (`consts["inputs"]` is the scenario's own dictionary):
+    returns (retail, shared) - retail-waste percentages that differ from the configured WASTE_RETAIL, and keys present in both dictionaries
+    (resource switches, storage regime, horizon, population, seaweed intake limits, delays) whose values differ"""
+    C = opt.consts_for_optimizer
+    I = C.get("inputs", {})
+    retail, shared = [], []
+    if "WASTE_RETAIL" in I:
+        for k in RETAIL_KEYS:
+            if k in C and float(C[k]) != float(I["WASTE_RETAIL"]):
+                retail.append((k, float(C[k]), float(I["WASTE_RETAIL"])))
+    for k in C:
+        # the switches, the storage regime, the horizon and the population; other shared keys are legitimately adjusted on the way
+        # (e.g. the seaweed limits are zeroed when seaweed is off)
+        if k == "inputs" or k not in I or not (k.startswith("ADD_") or k in ("STORE_FOOD_BETWEEN_YEARS", "NMONTHS", "POP")):
+            continue
+        a, b = C[k], I[k]
+        try:
+            eq = bool(np.all(np.asarray(a) == np.asarray(b)))
+        except Exception:
+            eq = a is b or a == b
+        if not eq:
+            shared.append((k, repr(a)[:60], repr(b)[:60]))
+    return retail, shared
